@@ -334,4 +334,144 @@ func ruleTK3(c *Ctx) *rule {
 	return r
 }
 
+func ruleTK4(c *Ctx) *rule {
+	r := &rule{ID: "TK4", Engine: "E2+E3", Floor: 1,
+		Statement: "Task.Commands has exactly one element per command of the syntax tree, in order: it is accumulated in the loop over ast.Task.Commands by one unconditional append per way round (error exits apart) of a value derived from that command's own text; it is never re-cut from expanded text",
+		Necessity: "variables are substituted textually into each command: if the list is joined, expanded and split again, a value that contains the separator (a multi-line exec(...) result) changes how many commands there are and what they say"}
+	fn := c.fn("task", "New")
+	key := "task.New Commands one-per-command"
+	var cl *classLoop
+	for _, l := range c.taskClassLoops() {
+		if l.source == "Commands" && l.accs["Commands"] != nil {
+			cl = l
+		}
+	}
+	if cl == nil {
+		// not accumulated in a loop over the commands: is the list cut out of some text?
+		for _, b := range fn.Blocks {
+			for _, in := range b.Instrs {
+				st, ok := in.(*ssa.Store)
+				if !ok || fieldKey(st.Addr) != "task.Task.Commands" {
+					continue
+				}
+				sl := c.newSlicer()
+				sl.depth = 0
+				res := sl.run(st.Val)
+				for _, n := range res.callNames() {
+					if strings.HasPrefix(n, "strings.Split") || strings.HasPrefix(n, "strings.Fields") || strings.HasPrefix(n, "strings.Lines") {
+						r.bad(key, c.ipos(st), "Task.Commands is cut out of expanded text by "+n+": a variable value containing the separator changes the number and content of the commands")
+						return r
+					}
+				}
+			}
+		}
+		r.undecided(key, c.pos(fn.Pos()), "Task.Commands is not accumulated by appends in a loop over ast.Task.Commands")
+		return r
+	}
+	apps := cl.apps["Commands"]
+	if len(apps) == 0 {
+		r.bad(key, c.bpos(cl.loop.header), "the loop over ast.Task.Commands never appends to Task.Commands")
+		return r
+	}
+	for _, app := range apps {
+		var residual []string
+		for _, g := range cl.fi.expandGuards(cl.fi.necessaryGuards(app.Block())) {
+			if !cl.loop.body[g.e.from] || g.e.from == cl.loop.header {
+				continue
+			}
+			if _, isPhi := g.cond.(*ssa.Phi); isPhi {
+				continue
+			}
+			if _, isIf := lastInstr(g.e.from).(*ssa.If); isIf && (g.e.idx == 0 || g.e.idx == 1) {
+				if ends, _ := c.edgeEndsInError(edge{g.e.from, 1 - g.e.idx}); ends {
+					continue
+				}
+			}
+			residual = append(residual, fmt.Sprintf("%s == %v", condText(g.cond), g.pol))
+		}
+		sl := c.newSlicer()
+		sl.depth = 0
+		sl.objFlow = true
+		res := sl.run(app.Call.Args[1:]...)
+		switch {
+		case len(residual) > 0:
+			r.bad(key, c.ipos(app), "a command is only recorded when "+strings.Join(residual, " && ")+": the others are silently left out of the task")
+		case !res.hasField("ast.Command.Command"):
+			r.bad(key, c.ipos(app), "what is appended does not derive from the text of the command at hand")
+		default:
+			r.ok(key, c.ipos(app), "one append per command, of a value derived from that command's text")
+		}
+	}
+	return r
+}
+
+func rulePS1(c *Ctx) *rule {
+	r := &rule{ID: "PS1", Engine: "E3", Floor: 1,
+		Statement: "the text of a string literal node is the token's text with its quotes removed and nothing else: between token.Value and ast.String.Text there is only quote stripping (ReplaceAll/Trim/TrimPrefix/TrimSuffix of the quote character, or slicing off the first and last byte)",
+		Necessity: "a string variable's value is exactly what is written between the quotes; unquoting with escape processing, case folding or trimming changes values that contain backslashes, upper case or blanks before they reach commands and the environment"}
+	n := 0
+	for _, f := range c.ModFuncs {
+		if shortPkg(fnPkgPath(f)) != "parser" {
+			continue
+		}
+		for _, b := range f.Blocks {
+			for _, in := range b.Instrs {
+				st, ok := in.(*ssa.Store)
+				if !ok || fieldKey(st.Addr) != "ast.String.Text" {
+					continue
+				}
+				n++
+				key := fmt.Sprintf("%s ast.String.Text#%d", fname(f), n)
+				sl := c.newSlicer()
+				sl.depth = 0
+				res := sl.run(st.Val)
+				if !res.hasField("token.Token.Value") {
+					r.bad(key, c.ipos(st), "the text of the string node does not derive from the token's text")
+					continue
+				}
+				bad, unknown := "", ""
+				for _, v := range res.order {
+					call, ok := v.(*ssa.Call)
+					if !ok {
+						continue
+					}
+					name := calleeName(call.Common())
+					if callee := call.Common().StaticCallee(); callee != nil && inModule(callee) {
+						continue // where the token comes from (the parser's own token supply)
+					}
+					switch name {
+					case "strings.ReplaceAll", "strings.Trim", "strings.TrimPrefix", "strings.TrimSuffix", "strings.TrimLeft", "strings.TrimRight":
+						for _, a := range call.Common().Args[1:] {
+							if s, isC := constString(a); !isC || (s != "\"" && s != "") {
+								bad = name + " with an argument other than the quote character"
+							}
+						}
+					case "builtin.len":
+					default:
+						switch {
+						case strings.HasPrefix(name, "strconv."), strings.HasPrefix(name, "html."), strings.HasPrefix(name, "net/url."),
+							strings.HasPrefix(name, "strings.To"), name == "strings.TrimSpace", name == "strings.Fields", name == "strings.Replace", name == "strings.Map":
+							bad = name
+						default:
+							unknown = name
+						}
+					}
+				}
+				switch {
+				case bad != "":
+					r.bad(key, c.ipos(st), "the literal's text passes through "+bad+": the value is no longer exactly the text between the quotes")
+				case unknown != "":
+					r.undecided(key, c.ipos(st), "the literal's text passes through "+unknown+", which this rule does not know")
+				default:
+					r.ok(key, c.ipos(st), "quotes stripped, nothing else")
+				}
+			}
+		}
+	}
+	if n == 0 {
+		r.undecided("parser ast.String.Text", "-", "the parser never fills ast.String.Text")
+	}
+	return r
+}
+
 var _ = types.Typ
